@@ -270,9 +270,7 @@ def run(ck, *groups):
     ck.notes.append("excflow: %d functions translated (%d untranslatable statements, %d unknown call sites, %d missing), "
                     "%d exception classes" % (len(tr.specs), n_other, n_unknown, len(tr.missing),
                                               len(tr.repo.class_tree())))
-    ok = True
-    for module, theorems in theorems_of(groups).items():
-        ok = ck.lean(module, theorems, gen_dependent=True) and ok
+    ok = ck.lean_many(list(theorems_of(groups).items()), gen_dependent=True)
     if not ok:
         try:
             diag = diagnose(tr)
